@@ -146,7 +146,7 @@ func loadMachine(repoDir, harnessDir string, patterns []string) (*machine, error
 		"errors", "sort", "path", "unicode/utf8", "unicode", "encoding/binary", "bufio", "io", "container/list",
 		"golang.org/x/sync/semaphore", "strconv", "container/heap", "math", "math/bits", "bytes", "strings", "slices", "cmp",
 		"github.com/ipfs/go-datastore", "github.com/ipfs/go-datastore/query", "github.com/ipfs/boxo/path",
-		"github.com/hashicorp/golang-lru", "encoding/base64", "encoding/hex",
+		"github.com/hashicorp/golang-lru", "encoding/base64", "encoding/hex", "net/url", "sync/atomic", "unicode/utf16",
 	}
 	m.initPrefixes = []string{
 		"berty.tech/go-orbit-db", "berty.tech/go-ipfs-log", "errors", "io", "bufio", "encoding/binary",
